@@ -1,6 +1,10 @@
 """Texts of MANIFEST.json checks: (level text, level note, technique, DESIGN section)."""
 T = "machine-checked proof (Lean 4) + regenerated facts + model/implementation correspondence"
 TEXT = {
+ "C19": ("Lean theorems: schedule independence (calls that never write shared state return in every interleaving of any number of goroutines what they return alone) and, as kernel-checked obligations on the footprints regenerated from the source, "
+         "its premise for this code: every method of the 12 shared implementation types only reads receiver fields or passes them to allow-listed constructors / concurrency-safe calls, no field or package variable is assigned outside Register*, "
+         "the struct field tables hold no cache or scratch state. A -race build exercising one shared instance of every implementation supports the search",
+         "partial: Go memory model, scheduler and thread-safety of stored crypto objects assumed; the race run is search support, not proof", T, "7.19"),
  "C10": ("Lean theorems: the r||s codec is exact (decode(encode(r,s)) = (r,s) for all r,s below 256^n), has the registered lengths 64/96/132, refuses any other length and oversize values, and is injective (any changed bit changes (r,s)); "
          "curve and hash tables regenerated from the source = RFC 9053. Library signatures verified by the Lean ECDSA/Ed25519 reference (and vice versa for verdicts on every mutation), Ed25519 byte-identical, keys in derived/exported/compressed form",
          "signature correctness/unforgeability and the group law are not theorems", T, "7.10"),
